@@ -294,6 +294,9 @@ func checkListingWriter(ctx *Ctx, roles *EmitterRoles, fn *ssa.Function, byType 
 			sigs[strings.Join(ks, "&")] = b.guards
 		}
 		msg := ""
+		if len(ad.bytes) == 0 && rec.K > 0 {
+			msg = fmt.Sprintf("renders no byte of the target buffer (the helper %s emits %d): the line does not show what Bytes() holds", rec.Helper, rec.K)
+		}
 		for _, g := range sigs {
 			var seq []renderedByte
 			for _, b := range ad.bytes {
